@@ -132,6 +132,16 @@ def check_cell(cls, situation, mode, form, fixture, view, sub=""):
                      "w-": form == "name" and situation == "absent", "x": form == "name" and situation == "absent"}[mode]
         ids = H.open_h5_ids()
         rec, exc = None, None
+        if tfiles and mode in ("r+", "a", "r"):
+            # a refused open right before (file list mixed with another record's container; the caller catches the
+            # error) must not get in the way of the open that follows - nothing is cleaned up in between
+            try:
+                bad = cls([Path(os.path.join(d, n)) for n in tfiles] + [Path(os.path.join(d, NEIGHBOURS[0] + ".ih5"))], "r")
+            except Exception:  # noqa: BLE001
+                pass
+            else:
+                bad.close()
+                raise Violation("C03:mixed-file-list-accepted", cell, "refused")
         try:
             rec = cls(arg, mode)
         except Exception as e:  # noqa: BLE001
@@ -186,15 +196,27 @@ def check_cell(cls, situation, mode, form, fixture, view, sub=""):
             if got != exp_view:
                 raise Violation(f"C03:view-after-open:{mode}:{situation}", f"{cell}: {got}", exp_view)
             if mode == "r":
-                for what, fn in (("setitem", lambda: rec.__setitem__("nn", 1)), ("create_patch", rec.create_patch),
-                                 ("delitem", lambda: rec.__delitem__("who")), ("attrs", lambda: rec.attrs.__setitem__("k", 1)),
-                                 ("create_group", lambda: rec.create_group("gg")), ("commit_patch", rec.commit_patch),
-                                 ("discard_patch", rec.discard_patch)):
+                # the record itself and every record object reachable from it (node.file, parent chains)
+                objs = [("", rec)]
+                for nm, get in (("file.", lambda: rec.file), ("root.file.", lambda: rec["/"].file),
+                                ("node.file.", lambda: rec[sorted(rec.keys())[0]].file),
+                                ("node.parent.file.", lambda: rec[sorted(rec.keys())[0]].parent.file)):
                     try:
-                        fn()
+                        objs.append((nm, get()))
                     except Exception:  # noqa: BLE001
-                        continue
-                    raise Violation(f"C03:r-allows:{what}", f"{cell}: {what} succeeded in mode r", "refused")
+                        pass
+                for nm, ro in objs:
+                    if getattr(ro, "mode", "r") != "r":
+                        raise Violation(f"C03:r-allows:{nm}mode", f"{cell}: {nm}mode is {ro.mode!r} for a record opened with 'r'", "r")
+                    for what, fn in (("setitem", lambda: ro.__setitem__("nn", 1)), ("create_patch", lambda: ro.create_patch()),
+                                     ("delitem", lambda: ro.__delitem__("who")), ("attrs", lambda: ro.attrs.__setitem__("k", 1)),
+                                     ("create_group", lambda: ro.create_group("gg")), ("commit_patch", lambda: ro.commit_patch()),
+                                     ("discard_patch", lambda: ro.discard_patch())):
+                        try:
+                            fn()
+                        except Exception:  # noqa: BLE001
+                            continue
+                        raise Violation(f"C03:r-allows:{nm}{what}", f"{cell}: {nm}{what} succeeded in mode r", "refused")
                 rec.close()
                 rec = None
                 final = recutil.dir_digest(d)
